@@ -62,6 +62,7 @@ class Ctx:
         if cfg not in self._facts:
             self._facts[cfg] = facts.Facts(extract.ensure(cfg))
             self.cfgs_used.add(cfg)
+            self.notes += self._facts[cfg].notes
         return self._facts[cfg]
 
     def fn(self, name, cfg="A"):
